@@ -217,7 +217,13 @@ impl HttpEngine {
                         "maintenance slot ending before it starts"
                     }
                     0 => {
-                        v["routes"][0]["vehicleType"] = json!("no_such_type");
+                        // the route of the first departure is certainly looked up by the loader
+                        let rid = v["departures"][0]["route"].clone();
+                        if let Some(rs) = v["routes"].as_array_mut() {
+                            for r in rs.iter_mut().filter(|r| r["id"] == rid) {
+                                r["vehicleType"] = json!("no_such_type");
+                            }
+                        }
                         "dangling vehicle type"
                     }
                     1 => {
@@ -225,7 +231,18 @@ impl HttpEngine {
                         "dangling route"
                     }
                     2 => {
-                        v["routes"][0]["segments"][0]["origin"] = json!("no_such_location");
+                        // the route segment of the first departure segment is certainly looked up
+                        let rid = v["departures"][0]["route"].clone();
+                        let sid = v["departures"][0]["segments"][0]["routeSegment"].clone();
+                        if let Some(rs) = v["routes"].as_array_mut() {
+                            for r in rs.iter_mut().filter(|r| r["id"] == rid) {
+                                if let Some(sg) = r["segments"].as_array_mut() {
+                                    for x in sg.iter_mut().filter(|x| x["id"] == sid) {
+                                        x["origin"] = json!("no_such_location");
+                                    }
+                                }
+                            }
+                        }
                         "dangling location"
                     }
                     3 => {
